@@ -688,6 +688,20 @@ pub assume_specification [<{q} as PartialEq>::eq] (a: &{q}, b: &{q}) -> (r: bool
                 continue
             lb0, lb1 = L['body']
             btxt = src[lb0:lb1].decode()
+            # log macro statements (removed by R1 anyway) and comments inside a guard block do not count: blank them out,
+            # keeping every position
+            bb = bytearray(src[lb0:lb1])
+            for m16m in e['macros']:
+                if m16m['name'] in LOG_MACROS and lb0 <= m16m['span'][0] and m16m['span'][1] <= lb1:
+                    a16, b16 = m16m['span'][0] - lb0, m16m['span'][1] - lb0
+                    while b16 < len(bb) and bb[b16:b16 + 1] in (b' ', b';'):
+                        b16 += 1
+                    for q16 in range(a16, b16):
+                        if bb[q16:q16 + 1] != b'\n':
+                            bb[q16:q16 + 1] = b' '
+            btxt_blank = bb.decode()
+            if len(btxt_blank) == len(btxt):
+                btxt = btxt_blank
             found = []
             CM = r'(?:\s*//[^\n]*\n)*\s*'
             for m16 in re.finditer(r'(?<![A-Za-z0-9_])if\s+([^{};]+?)\s*\{' + CM + r'continue\s*;?' + CM + r'\}', btxt):
@@ -993,6 +1007,10 @@ pub assume_specification [<{q} as PartialEq>::eq] (a: &{q}, b: &{q}) -> (r: bool
             # signature + contract only; body replaced (an ASSUMPTION about this krill fn)
             edits = [x for x in edits if x[1] <= bs]
             edits.append((bs + 1, be - 1, [Seg(' unimplemented!() ')]))
+        # an automatic rewrite that lies strictly inside the span another rewrite replaces (a log macro inside a guard block that
+        # R16 turns into `if !(C) {`) goes with it
+        repl = [x for x in edits if x[1] > x[0]]
+        edits = [x for x in edits if not any(y is not x and y[0] <= x[0] and x[1] <= y[1] and (y[1] - y[0]) > (x[1] - x[0]) and y[0] < x[1] and x[0] < y[1] and x[1] > x[0] for y in repl)]
         segs = _apply_edits(src, a, b, edits)
         if external_body:
             segs.insert(0, Seg('#[verifier::external_body]\n'))
@@ -1184,7 +1202,21 @@ pub assume_specification [<{q} as PartialEq>::eq] (a: &{q}, b: &{q}) -> (r: bool
         segs += self._ghost_segs(ghost_before, fid, clause_list)
         if body_only:
             bs_, bt_ = L['body']
-            segs += _apply_edits(src, bs_, bt_, self._inner_edits(src, e, bs_, bt_, fn) + self._nested_closure_edits(src, e, bs_, bt_, inner_closures, fid, clause_list, fn))
+            # a `continue` of THIS loop ends the iteration: in the lifted body that is `return <tail>` (not inside nested loops)
+            cont_edits = []
+            btxt_c = src[bs_:bt_].decode()
+            nested = [L2['span'] for L2 in e['loops'] if L2 is not L and bs_ <= L2['span'][0] and L2['span'][1] <= bt_]
+            for mc in re.finditer(r'(?<![A-Za-z0-9_])continue(?![A-Za-z0-9_])', btxt_c):
+                pc = bs_ + len(btxt_c[:mc.start()].encode())
+                if any(n0 <= pc < n1 for n0, n1 in nested):
+                    continue
+                # skip occurrences inside comments
+                line_start = btxt_c.rfind('\n', 0, mc.start()) + 1
+                if '//' in btxt_c[line_start:mc.start()]:
+                    continue
+                cont_edits.append((pc, pc + len('continue'), [Seg('return ' + tail.strip().rstrip(';'))]))
+                self._rw('R16')
+            segs += _apply_edits(src, bs_, bt_, cont_edits + self._inner_edits(src, e, bs_, bt_, fn) + self._nested_closure_edits(src, e, bs_, bt_, inner_closures, fid, clause_list, fn))
             segs.append(Seg('\n'))
             segs += self._ghost_segs(ghost_after, fid, clause_list)
             segs.append(Seg(tail + '\n}'))
